@@ -76,11 +76,7 @@ def _res_ctor(ex, path, bound, node):
     # the clauses of C15 (finite inputs: the sources were cleaned when they were built)
     path.assume(q_forall([k], b_and(0 <= k, k < n), b_and(0 <= pi(k), pi(k) < n, inv(pi(k)) == k), pats=[pi(k)]),
                 q_forall([i], b_and(0 <= i, i < n), b_and(0 <= inv(i), inv(i) < n, pi(inv(i)) == i), pats=[inv(i)]),
-                q_forall([k], b_and(0 <= k, k < n - 1), tv.at(pi(k)) <= tv.at(pi(k + 1)), pats=[pi(k)]),
-                q_forall([k], b_and(0 <= k, k < n - 1, tv.at(pi(k)) == tv.at(pi(k + 1))), pi(k) < pi(k + 1), pats=[pi(k)]),
-                # stable sort of a non-decreasing array is the identity (numpy contract, used by C15's 'ties-keep-input-order')
-                z3.Implies(q_forall([j], b_and(0 <= j, j < n - 1), tv.at(j) <= tv.at(j + 1)),
-                           q_forall([k], b_and(0 <= k, k < n), pi(k) == k, pats=[pi(k)])))
+                q_forall([k], b_and(0 <= k, k < n - 1), tv.at(pi(k)) <= tv.at(pi(k + 1)), pats=[pi(k)]))
     return o
 
 
